@@ -1,8 +1,56 @@
-from checks import det_check
+from checks import det_check, common
+import vlib
+from vlib import log
+
+BODY = ('library SafeMath { function add(uint a, uint b) internal pure returns (uint) { return a + b; } }\n'
+        'contract A {\n  %s\n  uint total;\n  function f(uint z) public returns (uint) {\n'
+        '    require(z > 0, "short");\n    require(z < 100, "this message is exactly 32 bytes");\n'
+        '    require(z != 7, "this message is longer than thirty-two bytes for sure");\n    require(z != 8);\n'
+        '    total = total.add(z).sub(1);\n    return z.mul(2).div(3) + z.mod(5);\n  }\n}\n')
+
+
+def version_programs(ctx):
+    import random
+    rng = random.Random(ctx.seed * 101 + 3)
+    triples = [(0, 0, 0), (0, 4, 26), (0, 5, 17), (0, 6, 12), (0, 7, 6), (0, 7, 99), (0, 8, 0), (0, 8, 1), (0, 8, 3), (0, 8, 4),
+               (0, 8, 5), (0, 8, 10), (0, 8, 40), (0, 9, 0), (0, 9, 3), (0, 10, 0), (0, 12, 4), (1, 0, 0), (1, 0, 4), (1, 2, 40), (1, 8, 3),
+               (2, 0, 0), (0, 8, 2147483647), (2147483647, 0, 0)]
+    if ctx.tier != 'quick':
+        triples = [(a, b, c) for a in (0, 1) for b in range(0, 13) for c in (0, 3, 4, 5, 40)] + triples
+    ops = ['', '^', '~', '=', '>=', '>', '>= ', '^ ']
+    places = [('', ''), ('pragma abicoder v2;\n', ''), ('', 'pragma experimental ABIEncoderV2;\n'),
+              ('pragma experimental ABIEncoderV2;\npragma abicoder v2;\n', 'pragma abicoder v1;\n')]
+    usings = ['using SafeMath for uint;', 'using SafeMath for uint256;', '', 'using Other for uint;']
+    out = []
+    for (a, b, c) in triples:
+        for op in (ops if ctx.tier != 'quick' else rng.sample(ops, 3)):
+            before, after = rng.choice(places)
+            u = rng.choice(usings)
+            out.append({'gen': 'version:%d.%d.%d:%s' % (a, b, c, op),
+                        'src': '%spragma solidity %s%d.%d.%d;\n%s%s' % (before, op, a, b, c, after, BODY % u)})
+    # out of hypothesis (no S check, model = implementation still required)
+    for v in ['>=0.7.0 <0.9.0', '0.8', '*', '0.8.x', '^0.8.4 || ^0.7.0', '0.8..4', '0.8.99999999999', '00.08.004']:
+        out.append({'gen': 'version-ood:' + v, 'src': 'pragma solidity %s;\n%s' % (v, BODY % usings[0])})
+    out.append({'gen': 'version-ood:two', 'src': 'pragma solidity 0.7.0;\npragma solidity 0.8.10;\n' + BODY % usings[0]})
+    out.append({'gen': 'version-ood:none', 'src': BODY % usings[0]})
+    return out
 
 
 def run(rep, ctx):
-    det_check.run(rep, ctx, 'C09')
+    # version strings: scanner + i32 parsing, implementation vs model (builder-utils' stream)
+    from checks import version_common as vc
+    gaps = []
+    mism = vc.check_version_strings(ctx, vc.standard_strings() + vc.scanner_strings(6 if ctx.tier == 'quick' else 7), gaps_out=gaps)
+    rep.coverage['version_strings'] = {'compared': len(vc.standard_strings()) + len(vc.scanner_strings(6 if ctx.tier == 'quick' else 7)),
+                                       'mismatches': len(mism), 'unicode_digit_gap_strings': len(gaps)}
+    for m in mism[:2]:
+        rep.violation('get_solidity_major_minor_patch_version / parse::<i32> differ from the model on %r' % m.get('string'),
+                      {'kind': 'M', 'input': m, 'correspondence': {'model_function': 'Utils.get_solidity_major_minor_patch_version',
+                                                                   'rust_function': 'utils::get_solidity_major_minor_patch_version'}},
+                      no_input=True)
+    det_check.run(rep, ctx, 'C09', extra_progs=version_programs(ctx),
+                  rule_extra='; plus version triples (boundaries around 0.8.0 / 0.8.4, 0.9.0, 1.0.0, i32 max) x operator spellings x '
+                             'placements of abicoder/experimental pragmas x SafeMath usings, and version strings for the scanner')
 
 
 def replay(obj):
